@@ -18,6 +18,11 @@ def same_origin(body, d1, d2):
     return False
 
 
+def util_agg(b, op):
+    from rn import util
+    return util.agg_of(b, op)
+
+
 def run(ck, fb):
     ck.explanation = (
         'Decides (a) for ALL u64 values, by exhaustive abstract interpretation of the compiled MIR of write_varint64, '
@@ -260,6 +265,22 @@ def r20c(ck, fb):
                             okz = okz or True
     ck.require(okz, 'R20c', 'read_len:zero-is-end', b.where(),
                'read_len no longer refuses a zero length (end marker) before returning Ok', 'Ok only when len != 0')
+    # the peek is undone exactly: a short read near the end of the file returns fewer than 10 bytes, so the file position must be restored
+    # to the absolute record start (SeekFrom::Start(self.start)), not stepped back by the buffer size
+    sk = b.calls(r'AsyncSeekExt::seek$|::seek$')
+    ck.floor('R20c', 'seek in read_len', len(sk), 1)
+    okb = False
+    for s in sk:
+        a = util_agg(b, s.args[1]) if len(s.args) > 1 else None
+        if a is None:
+            continue
+        if a.get('variant') == 'Start' and any((cfg.origin_fields(b, o) or [])[-1:] == ['start'] for o in a['ops']):
+            if all(cfg.must_pass_before_return(b, x.bb, {s.bb}, returns=[i for (i, j, st) in oks]) for x in rd):
+                okb = True
+    ck.require(okb, 'R20c', 'read_len:rewinds-to-record-start', b.where(),
+               'after peeking the length prefix the file position is not restored with SeekFrom::Start(self.start) on the way to Ok: a relative step '
+               'back by the buffer size is wrong whenever the peek was short (a record that starts fewer than 10 bytes before the end of the file), '
+               'the body is then read from the tail of the previous record', 'SeekFrom::Start(self.start) before Ok')
 
 
 CONSUMERS = [
